@@ -115,8 +115,17 @@ def input_purity(ctx, rule: str, consequence: str, min_functions: int = 150, mod
         ctx.note("output_params_without_write", missing)
 
 
+# attributes that hold immutable scalars, not arrays: handing them out shares nothing (confirmed by reading every assignment)
+SCALAR_ATTRS = {
+    "tentative_dt": "options.dt_init, or np.clip of scalars: a float / numpy scalar",
+    "dt_max": "options.dt_max or options.dt_init: a float",
+    "u": "device.layer.u: a float", "gamma": "device.layer.gamma: a float",
+    "num_edges": "len(...): an int",
+}
+
+
 def _self_root(e):
-    if isinstance(e, ast.Attribute) and isinstance(e.value, ast.Name) and e.value.id == "self":
+    if isinstance(e, ast.Attribute) and isinstance(e.value, ast.Name) and e.value.id == "self" and e.attr not in SCALAR_ATTRS:
         return "self." + e.attr
     return None
 
